@@ -3,7 +3,7 @@ import ast
 from fractions import Fraction
 
 from ..core import sym
-from ..core.expand import u, call_name, get_arg, bind_args, phi_alternatives, is_marker
+from ..core.expand import u, call_name, get_arg, bind_args, phi_alternatives, is_marker, Expander
 from ..core.loader import Inconclusive, const_value
 from .common import (calls_in, callee, returns, expander, strip_shape, linear_coeffs, guards_of, subscript_stores,
                      all_nodes, raise_class, role_of, kw, is_true, compare_nf, stmt_of)
@@ -226,6 +226,17 @@ def rule_tolerance(ck):
                    'into the bin below' % sym.show(p))
 
 
+def strip_all_shape(e):
+    """erase numpy.asarray(...) wrappers everywhere in an expression (bins = numpy.asarray(bins))"""
+    from ..core.sym import clone
+
+    def leaf(n):
+        if isinstance(n, ast.Call) and call_name(n) in ('numpy.asarray', 'numpy.array') and n.args:
+            return clone(n.args[0], leaf)
+        return None
+    return clone(e, leaf)
+
+
 def _threshold(cond_poly, idx_atom, N):
     """Interpret an atom pos(d)/nonneg(d) with d = s*idx + rest as an integer half-line.
     Returns ('ge'|'le', rest poly) meaning idx >= T or idx <= T."""
@@ -308,11 +319,13 @@ def rule_range(ck):
         return
     o.ok('guarded by `%s`' % mode_param)
 
+    exk = Expander(P, f, keep={var})
+
     def analyse(stmt, tgt):
         if isinstance(stmt, ast.AugAssign):
             return None, None
-        cond = N.nf(tgt.slice)
-        val = N.nf(stmt.value)
+        cond = N.nf(strip_all_shape(exk.expand(tgt.slice)))
+        val = N.nf(strip_all_shape(exk.expand(stmt.value)))
         return _halflines(cond, idx_atom, N), val
 
     # ---- closed mode: exactly {idx <= -1} U {idx >= N} -> -1
@@ -367,6 +380,17 @@ def rule_range(ck):
     # ---- single-edge grid forces open mode and a positive spacing; negative spacing raises
     o = ck.ob('C02-D3.single', f, 'single-edge grid -> open-ended with positive spacing', f.node)
     found = False
+    # the spacing variable: whatever name receives the difference of the first two edges
+    spacing_names = set()
+    for n in all_nodes(f):
+        if isinstance(n, ast.Assign) and len(n.targets) == 1 and isinstance(n.targets[0], ast.Name):
+            try:
+                if N.nf(n.value) == N.nf('bins[1] - bins[0]'):
+                    spacing_names.add(n.targets[0].id)
+            except Exception:
+                pass
+    if not spacing_names:
+        spacing_names = {'h'}
     for n in all_nodes(f):
         if isinstance(n, ast.If):
             t = N.nf(n.test)
@@ -374,7 +398,7 @@ def rule_range(ck):
                 sets_rc = any(isinstance(s, ast.Assign) and isinstance(s.targets[0], ast.Name) and
                               s.targets[0].id == 'right_continuous' and is_true(s.value) for s in n.body)
                 hs = [s for s in n.body if isinstance(s, ast.Assign) and isinstance(s.targets[0], ast.Name)
-                      and s.targets[0].id == 'h']
+                      and s.targets[0].id in spacing_names]
                 hpos = bool(hs) and all((const_value(s.value) is not NotImplemented and const_value(s.value) > 0) for s in hs)
                 found = True
                 if sets_rc and hpos:
@@ -389,7 +413,7 @@ def rule_range(ck):
     for n in all_nodes(f):
         if isinstance(n, ast.If) and any(isinstance(s, ast.Raise) for s in n.body):
             t = N.nf(n.test)
-            if t in (N.nf('h < 0'), N.nf('h <= 0')):
+            if any(t in (N.nf('%s < 0' % h_), N.nf('%s <= 0' % h_)) for h_ in spacing_names):
                 ok = True
     (o.ok('h < 0 raises') if ok else o.fail('a decreasing edge grid (h < 0) is no longer rejected'))
 
@@ -458,7 +482,7 @@ def rule_generators(ck):
     P = ck.prog
     ck.clause('D5')
     f = P.func('csep.utils.calc.cleaner_range')
-    ex = expander(P, f)
+    ex = expander(P, f, depth=1, filt=lambda g: g.node.name != '_snap_to_integer' and 'snap' not in g.node.name)
     rets = [r for r in returns(f) if r.value is not None]
     if len(rets) != 1:
         raise Inconclusive('cleaner_range has %d returns' % len(rets))
@@ -538,7 +562,7 @@ def rule_generators(ck):
                        'scale*h = 2.5 becomes 2, edges 5.0, 5.2, 5.4, ...); only a snap that leaves non-integers alone is admissible' % u(d)[:60])
     (oo.ok('d = [snap](scale*h)') if ok else oo.fail(why))
     # the power-of-ten scale must cover the decimals of the start AND of the step, otherwise scale*start / scale*h are not integers
-    oo = ck.ob('C02-D5.decimals', f, scale, rets[0])
+    oo = ck.ob('C02-D5.decimals', f, 'power-of-ten scale covers the decimals of start and step', rets[0])
     pows = [n for n in ast.walk(scale) if isinstance(n, ast.BinOp) and isinstance(n.op, ast.Pow) and const_value(n.left) == 10]
     if not pows:
         oo.unknown('no power-of-ten scale found in `%s`' % u(scale)[:80])
